@@ -414,6 +414,7 @@ theorem x86_wf_of_finalize (g : Frame) (hin : LayoutIn g) (hx : X86In g) : X86WF
       rw [hfp]
       show g.fin1.saOffSaC = (if g.hasFP = true then 2 * g.arch.W else g.arch.W + g.fin1.ppSizeC)
       unfold Frame.saOffSaC Frame.regSize
+      rw [show g.fin1.arch.lrId = none from hlr, Option.isNone_none, Bool.and_true]
       rw [hras, show g.fin1.hasFP = g.hasFP from rfl, show g.fin1.srSize 0 = g.arch.W from s0a]
       have hb : g.fin1.ppSizeC < 2 ^ 16 := by unfold Frame.ppSizeC u16; exact Nat.mod_lt _ (by omega)
       cases g.hasFP with
@@ -792,8 +793,8 @@ structure A64In (g : Frame) : Prop where
   pres23 : ∀ gi, 2 ≤ gi → g.preserved gi = 0
   /-- excludes the open finding: no dynamic alignment … -/
   align : g.natAlign = 16 ∧ g.finalAlign = 16 ∧ g.minDynAlign = 32
-  /-- … and no stack-argument base register other than `sp` -/
-  sa : g.saRegId = 0xFF ∨ g.saRegId = 31
+  /-- … and no stack-argument base register other than `sp` or the preserved frame pointer (fixes/C07-7) -/
+  sa : g.saRegId = 0xFF ∨ g.saRegId = 31 ∨ (g.saRegId = 29 ∧ g.hasFP = true)
   cleanup : g.calleeCleanup = 0
 
 theorem a64_wf_of_finalize (g : Frame) (hin : LayoutIn g) (ha : A64In g) : A64WF g.finalize := by
@@ -808,18 +809,27 @@ theorem a64_wf_of_finalize (g : Frame) (hin : LayoutIn g) (ha : A64In g) : A64WF
   have hfpid : g.arch.fpId = 29 := by rw [harch]; rfl
   have hnda : g.hasDA = false := by unfold Frame.hasDA; rw [hM, hA]; decide
   have hras : g.fin1.retAddrSize = 0 := by unfold Frame.retAddrSize; simp only [Frame.fin1, hlr]; rfl
-  have hsaC : g.saC = 31 := by
+  have hsaC : g.saC = 31 ∨ (g.saC = 29 ∧ g.hasFP = true) := by
     unfold Frame.saC
     simp only [hsp, hnda, Bool.false_eq_true, false_and, if_false]
-    rcases ha.sa with h | h <;> rw [h] <;> simp
-  have hsaId : g.fin1.saRegId = 31 := by show u8 g.saC = 31; rw [hsaC]; rfl
+    rcases ha.sa with h | h | ⟨h, hfp⟩
+    · rw [h]; simp
+    · rw [h]; simp
+    · rw [h]; simp [hfp]
+  have hsaId : g.fin1.saRegId = 31 ∨ (g.fin1.saRegId = 29 ∧ g.hasFP = true) := by
+    show u8 g.saC = 31 ∨ (u8 g.saC = 29 ∧ _)
+    rcases hsaC with h | ⟨h, hfp⟩ <;> rw [h]
+    · exact Or.inl rfl
+    · exact Or.inr ⟨rfl, hfp⟩
   have hd0 : g.fin1.dirty 0 = u32 g.dirty0C := rfl
   have hdirtyFp : g.hasFP = true → (g.fin1.dirty 0).testBit 29 = true ∧ (g.fin1.dirty 0).testBit 30 = true := by
     intro hfp
     rw [hd0, tb_u32 _ 29 (by omega), tb_u32 _ 30 (by omega)]
     unfold Frame.dirty0C
-    simp only [hsp, hfpid, hlr, hfp, if_true, hsaC, ne_eq, not_true_eq_false, if_false]
-    exact ⟨tb_or_left _ _ _ (tb_or_bit _ 29), tb_or_bit _ 30⟩
+    simp only [hsp, hfpid, hlr, hfp, if_true]
+    split
+    · exact ⟨tb_or_left _ _ _ (tb_or_left _ _ _ (tb_or_bit _ 29)), tb_or_left _ _ _ (tb_or_bit _ 30)⟩
+    · exact ⟨tb_or_left _ _ _ (tb_or_bit _ 29), tb_or_bit _ 30⟩
   have hsaved (gi r : Nat) : (g.finalize.saved gi).testBit r = ((g.fin1.dirty gi).testBit r && (g.fin1.preserved gi).testBit r) := by
     show (g.fin1.dirty gi &&& g.fin1.preserved gi).testBit r = _
     rw [Nat.testBit_and]
@@ -853,7 +863,7 @@ theorem a64_wf_of_finalize (g : Frame) (hin : LayoutIn g) (ha : A64In g) : A64WF
     obtain ⟨d1, d2⟩ := hdirtyFp hfp'
     rw [hsaved, hsaved, d1, d2, hpres0, hp29 hfp', hp30]; exact ⟨rfl, rfl⟩
   have h31 : (g.finalize.saved 0).testBit 31 = false := by rw [hsaved, hpres0, hp31, Bool.and_false]
-  obtain ⟨i1, i2, i3, i4, i5, i6, i7, i8⟩ :=
+  obtain ⟨i1, i2, i3, i4, i5, i6, i7, i8, i9⟩ :=
     a64_items_facts g.finalize harch ⟨s0a, s0b⟩ ⟨s1a, s1b⟩ hfpSaved h31
   -- save-area sizes
   have hn0 := nSaved_le g.finalize 0
@@ -935,7 +945,20 @@ theorem a64_wf_of_finalize (g : Frame) (hin : LayoutIn g) (ha : A64In g) : A64WF
   exact {
     arch := harch
     noDA := hnda
-    sa := hsaId
+    sa := by
+      rcases hsaId with h | ⟨h, hfp⟩
+      · exact Or.inl h
+      · exact Or.inr ⟨h, by rw [hfinFP]; exact hfp⟩
+    saOffSa := by
+      show g.fin1.saOffSaC = g.fin1.ppSizeC
+      unfold Frame.saOffSaC
+      rw [show g.fin1.arch.lrId = some 30 from hlr]
+      simp only [Option.isNone_some, Bool.and_false, Bool.false_eq_true, if_false]
+      rw [hras, Nat.zero_add]
+      unfold u32 Frame.ppSizeC u16
+      have := Nat.mod_lt (g.fin1.saveSizeSum true) (show 0 < 2 ^ 16 by omega)
+      rw [Nat.mod_eq_of_lt (by omega)]
+    fpFirst := i9
     align := ⟨hA, hN⟩
     cleanup := ha.cleanup
     localFits := by
@@ -1097,7 +1120,7 @@ example : ∃ s1, run .a64 ((a64Prolog exA64.finalize).getD []) (initState .a64 
   have hin : A64In exA64 := by
     have h := a64In_init 0 false _ (tbl4 0x380000 0x100 0 0) 0 rfl
     exact { arch := h.arch, sr0 := h.sr0, sr1 := h.sr1, sr23 := h.sr23, presSp := h.presSp, presLr := h.presLr,
-            pres23 := h.pres23, align := ⟨by decide, by decide, by decide⟩, sa := h.sa, cleanup := h.cleanup }
+            pres23 := h.pres23, align := ⟨by decide, by decide, by decide⟩, sa := Or.inl rfl, cleanup := h.cleanup }
   obtain ⟨s1, h1, h2, h3, _, h5⟩ := a64_prolog_body_epilog_partial exA64
     ⟨⟨4, by decide, by decide⟩, ⟨3, by decide, by decide⟩, by decide, by decide⟩ hin
     ((a64Prolog exA64.finalize).getD []) ((a64Epilog exA64.finalize).getD []) (by decide) (by decide)
